@@ -3,11 +3,13 @@ import FV.Model.Sat
 /-
   op table for the pseudo-Boolean / SAT-manager models (properties C16, C07).  Mode `P`.
 
-  C16:  `P tree <tree>`      tree ::= `S name | N i z | N f n d | L name s | neg T | mul T T | add T T | sub T T
-                                       | cmp OP T T | ineq OPSTR T T`
-        reply: `S v | N i z | N f n d | L v s | T c v s | E c n (c v s)* | I op rhs n (c v s)* | err:<Class>`
+  C16:  `P tree <tree>`      tree ::= `S name | N i z | N f n d | L name s | neg T | inv T | pos T | mul T T | add T T
+                                       | sub T T | cmp OP T T | ineq OPSTR T T | sum n T* | sumfrom T n T*`
+        reply: `S v | N i z | N f n d | L v s | T c v s | E c n (c v s)* | I op rhs n (c v s)* | B True/False | err:<Class>`
+        `P tostr <tree>`     reply: the string `x.tostr()` of the built object
   C07:  `P isclause OPSTR <expr> <expr>`   expr ::= `c n (c name s)*`  (built as `Expr() + t1 + … + tn + c`)
         `P hist <nmgr> <nops> <op>*`   one posting history (`sv` carries the solver's model as `name 0/1` pairs)
+        `P sess <nhist> (<nmgr> <nops> <op>*)*`   histories run in sequence on one never-reset store
 -/
 namespace FV.Drv
 open FV FV.PB FV.Sat
@@ -29,6 +31,15 @@ def showVal : Val String → String
   | .term t => s!"T {showTerm t}"
   | .expr e => s!"E {e.c} {showTerms e.t}"
   | .ineq q => s!"I {showNOp q.op} {q.rhs} {showTerms q.lhs.t}"
+  | .bool b => if b then "B True" else "B False"
+
+/-- `x.tostr()` of the built object (`Ineq.clause` is still `None`: `isclause` was not called) -/
+def showTostr : Val String → String
+  | .lit l => l.tostr
+  | .term t => t.tostr
+  | .expr e => e.tostr
+  | .ineq q => q.tostr none
+  | _ => "err:AttributeError"
 
 /-! ### parsing -/
 def pNum : P Num := do
@@ -49,6 +60,10 @@ partial def pTree : P (Tree String) := do
   | "N" => do let n ← pNum; pure (.num n)
   | "L" => do let v ← tok; let s ← pBool; pure (.lit v s)
   | "neg" => do let a ← pTree; pure (.neg a)
+  | "inv" => do let a ← pTree; pure (.inv a)
+  | "pos" => do let a ← pTree; pure (.pos a)
+  | "sum" => do let l ← pList pTree; pure (Tree.sumOf l)
+  | "sumfrom" => do let st ← pTree; let l ← pList pTree; pure (Tree.sumFrom st l)
   | "mul" => do let a ← pTree; let b ← pTree; pure (.mul a b)
   | "add" => do let a ← pTree; let b ← pTree; pure (.add a b)
   | "sub" => do let a ← pTree; let b ← pTree; pure (.sub a b)
@@ -56,22 +71,7 @@ partial def pTree : P (Tree String) := do
   | "ineq" => do let o ← tok; let a ← pTree; let b ← pTree; pure (.ineq o a b)
   | _ => failure
 
-/-! ### C07: variable names -/
-def natOfDigits? (s : String) : Option Nat :=
-  if s.isEmpty then none
-  else if s.length > 1 ∧ s.front = '0' then none       -- `str(n)` never has a leading zero
-  else s.toNat?
-
-def varOfName (s : String) : Var :=
-  if s.startsWith "robdd_" then
-    match natOfDigits? (s.drop 6).toString with | some n => .node n | none => .user s
-  else if s.startsWith "aux_" then
-    match natOfDigits? (s.drop 4).toString with | some n => .aux n | none => .user s
-  else .user s
-
-def nameOfVar : Var → String
-  | .user s => s | .node n => s!"robdd_{n}" | .aux n => s!"aux_{n}"
-
+/-! ### C07: variable names — `varOfName` / `nameOfVar` are the model's (`FV/Model/Sat.lean`) -/
 def pVar : P Var := do let t ← tok; pure (varOfName t)
 def pLit : P Lit := do let v ← pVar; let s ← pBool; pure ⟨v, s⟩
 def pTermV : P (Term Var) := do let c ← pInt; let l ← pLit; pure ⟨l, c⟩
@@ -166,14 +166,38 @@ def stepH (w : World) (op : HOp) : Option (String × World) :=
   | .val i l => (w.mgrs[i]?).map fun m => ("v:" ++ showOptInt (m.value l), w)
   | .ev i e => (w.mgrs[i]?).map fun m => ("e:" ++ showOptInt (m.evalExpr e), w)
 
-def runHist (nm : Nat) (ops : List HOp) : Option String := do
-  let mut w : World := { mgrs := List.replicate nm {}, store := Store.init }
+/-- run one history from the store `S0`; `none` = malformed request -/
+def runHistFrom (S0 : Store Var) (nm : Nat) (ops : List HOp) : Option (List String × World) := do
+  let mut w : World := { mgrs := List.replicate nm {}, store := S0 }
   let mut res : List String := []
   for op in ops do
     let (r, w') ← stepH w op
     w := w'
     res := r :: res
-  pure (" ".intercalate res.reverse ++ String.join (w.mgrs.map fun m => " | " ++ showMgr m) ++ " | " ++ showStore w.store)
+  pure (res.reverse, w)
+
+def runHist (nm : Nat) (ops : List HOp) : Option String := do
+  let (res, w) ← runHistFrom Store.init nm ops
+  pure (" ".intercalate res ++ String.join (w.mgrs.map fun m => " | " ++ showMgr m) ++ " | " ++ showStore w.store)
+
+/-- the nodes appended to the store since it had `k` entries (`memory[k:]` and the matching `mmap` items) -/
+def showStoreFrom (S : Store Var) (k : Nat) : String :=
+  let mem := S.memory.drop k
+  let mm := S.mmap.drop (k - 2)
+  s!"{k} {mem.length}" ++ String.join (mem.map fun n => " " ++ showNode n)
+  ++ s!" {mm.length}" ++ String.join (mm.map fun p => s!" {nameOfVar p.1.1} {p.1.2.1} {p.1.2.2} {p.2}")
+
+/-- a session: histories run one after the other on ONE store that is never reset (every history starts with fresh
+    managers); per history: op results, managers, and what the history appended to the store -/
+def runSession (hs : List (Nat × List HOp)) : Option String := do
+  let mut S : Store Var := Store.init
+  let mut out : List String := []
+  for (nm, ops) in hs do
+    let (res, w) ← runHistFrom S nm ops
+    out := (" ".intercalate res ++ String.join (w.mgrs.map fun m => " | " ++ showMgr m) ++ " | "
+      ++ showStoreFrom w.store S.memory.length) :: out
+    S := w.store
+  pure (" || ".intercalate out.reverse)
 
 def showClauseRes : ClauseRes Var → String
   | .no => "no" | .taut => "taut" | .clause c => "clause " ++ showClause c
@@ -182,11 +206,31 @@ def pbOp (op : String) (args : List String) : Option String :=
   match op with
   | "tree" => (runP pTree args).map fun t =>
       match t.run with | .ok v => showVal v | .error e => showErr e
+  | "tostr" => (runP pTree args).map fun t =>
+      match t.run with | .ok v => showTostr v | .error e => showErr e
   | "isclause" => (runP (do let o ← tok; let a ← pExprV; let b ← pExprV; pure (o, a, b)) args).map fun (o, a, b) =>
       match Ineq.makeStr a b o with
       | none => "err:Exception"
       | some q => s!"{showNOp q.op} {q.rhs} " ++ showClauseRes q.isClause
+  | "qtostr" => (runP (do let o ← tok; let a ← pExprV; let b ← pExprV; pure (o, a, b)) args).map fun (o, a, b) =>
+      -- `Ineq(a, b, o)`, `isclause()`, then `tostr()` (variables printed by name)
+      match Ineq.makeStr a b o with
+      | none => "err:Exception"
+      | some q =>
+        let nmL (l : Lit) : Literal String := ⟨nameOfVar l.v, l.s⟩
+        let qs : Ineq String := ⟨⟨q.lhs.c, q.lhs.t.map fun t => ⟨nmL t.L, t.c⟩⟩, q.rhs, q.op⟩
+        match q.isClause with
+        | .clause c => qs.tostr (some (c.map nmL))
+        | _ => qs.tostr none
+  | "names" => (runP (pList (do let pre ← tok; let name ← tok; pure (pre, name))) args).map fun calls =>
+      -- `newvar(name, pre)` calls on one manager; tokens are `p:<pre>` / `n:<str(name)>` (either may be empty)
+      let kind : Var → String | .user _ => "u" | .node n => s!"n{n}" | .aux n => s!"a{n}"
+      let (m, out) := calls.foldl (fun (acc : Mgr × List String) (c : String × String) =>
+        let (l, m') := acc.1.newvarPy (c.2.drop 2).toString.toList (c.1.drop 2).toString.toList
+        (m', s!"{nameOfVar l.v}:{b01 l.s}:{kind l.v}" :: acc.2)) (({} : Mgr), [])
+      " ".intercalate out.reverse ++ s!" | {m.vars.length}" ++ String.join (m.vars.map fun v => " " ++ nameOfVar v)
   | "hist" => (runP (do let nm ← pNat; let ops ← pList pHOp; pure (nm, ops)) args).bind fun (nm, ops) => runHist nm ops
+  | "sess" => (runP (pList (do let nm ← pNat; let ops ← pList pHOp; pure (nm, ops))) args).bind runSession
   | _ => none
 
 end FV.Drv
